@@ -93,7 +93,7 @@ def main(argv=None):
         if a.v: print('[case] %-50s %-12s paths=%s pruned=%s red=%s obl=%s sat=%s %.1fs %s' % (r['case']['name'], r['status'], r['stats'].get('paths'), r['stats'].get('pruned'), r['stats'].get('redundant'),
               r['stats'].get('obligations'), r['stats'].get('sat'), r['wall_s'], (r.get('error') or '')[:300]), flush=True)
     # time cap for the whole run (thorough tier): work not finished by then is listed as not run, never as passed
-    cap = float(os.environ.get('VERIF_TIME_CAP', '1500' if a.tier == 'thorough' else '0')) or None
+    cap = float(os.environ.get('VERIF_TIME_CAP', '600' if a.tier == 'thorough' else '0')) or None
     skipped = []
     wave2 = []
     capped = False
